@@ -484,7 +484,10 @@ def replay_env_line(cfg, idx, v, S):
     nseeds = cfg["seeds"] if nsteps else 1
     seen = set()
     for k in range(nseeds):
-        seed = (cfg["base_seed"] * 1000003 + idx * 7919 + k) % (1 << 63)
+        # seeds over the whole unsigned 64-bit range the core accepts, the boundary values among them
+        seed = (cfg["base_seed"] * 0x9E3779B97F4A7C15 + idx * 7919 + k * 0x632BE59BD9B4E019) % (1 << 64)
+        if (idx + k) % 4 == 0:
+            seed = BOUNDARY_SEEDS[(idx // 4 + k) % len(BOUNDARY_SEEDS)]
         S["seeds_run"] += 1
         S["ops"] += len(path)
         try:
@@ -531,6 +534,40 @@ def replay_env_line(cfg, idx, v, S):
     if len(S["samples"]) < 1 and nsteps and len(outs) > 1 and not S["n_mismatch"]:
         S["samples"].append({"path": path, "allowed_outcomes": len(outs), "python_must_show_l1_array": outs[0]["py"]["l1_array"],
                              "python_must_show_l2_array_head": outs[0]["py"]["l2_array"][:13]})
+
+
+BOUNDARY_SEEDS = [0, 1 << 63, (1 << 64) - 1, (1 << 63) + 12345, 1 << 32, 1]
+
+
+def ctor_checks(T):
+    """Constructor arguments (C18: an out-of-range integer raises OverflowError): seeds and times are unsigned 64-bit,
+    tick sizes unsigned 32-bit; every in-range value, the boundary ones included, is accepted."""
+    def expect(what, fn, exc):
+        try:
+            fn()
+            got = "none"
+        except BaseException as e:
+            got = type(e).__name__
+        T["lines"] += 1
+        if got != exc:
+            T["n_mismatch"] += 1
+            if len(T["mismatches"]) < 10:
+                T["mismatches"].append({"what": "%s: expected %s, got %s" % (what, "no exception" if exc == "none" else exc, "no exception" if got == "none" else got)})
+    for name, cls in (("StepEnv", core.StepEnv), ("StepEnvNumpy", core.StepEnvNumpy)):
+        for sd in BOUNDARY_SEEDS:
+            expect("%s(seed=%d, 0, 1, 10)" % (name, sd), lambda: cls(sd, 0, 1, 10), "none")
+        for bad in (-1, -(1 << 63), 1 << 64):
+            expect("%s(seed=%d, 0, 1, 10)" % (name, bad), lambda: cls(bad, 0, 1, 10), "OverflowError")
+            expect("%s(1, start_time=%d, 1, 10)" % (name, bad), lambda: cls(1, bad, 1, 10), "OverflowError")
+            expect("%s(1, 0, 1, step_size=%d)" % (name, bad), lambda: cls(1, 0, 1, bad), "OverflowError")
+        for bad in (-1, 1 << 32):
+            expect("%s(1, 0, tick_size=%d, 10)" % (name, bad), lambda: cls(1, 0, bad, 10), "OverflowError")
+        expect("%s(1, start_time=2^64-1001, 1, 10)" % name, lambda: cls(1, (1 << 64) - 1001, 1, 10), "none")
+    for bad in (-1, 1 << 64):
+        expect("OrderBook(start_time=%d, 1)" % bad, lambda: core.OrderBook(bad, 1), "OverflowError")
+    for bad in (-1, 1 << 32):
+        expect("OrderBook(0, tick_size=%d)" % bad, lambda: core.OrderBook(0, bad), "OverflowError")
+    expect("OrderBook(2^64-1001, 2^32-1)", lambda: core.OrderBook((1 << 64) - 1001, (1 << 32) - 1), "none")
 
 
 # ---------------------------------------------------------------- driver
@@ -659,6 +696,8 @@ def main():
         os.makedirs(a.xdir, exist_ok=True)
     T = new_stats()
     tail = []
+    load_modules()
+    ctor_checks(T)
     with mp.Pool(a.procs, initializer=load_modules) as pool:
         for S in pool.imap_unordered(work, chunks(cfg, tail), chunksize=1):
             merge(T, S)
